@@ -328,7 +328,26 @@ def run_shard(shard, env):
         cases = [shard["replay"]]
     else:
         rnd = random.Random("%s/%s/%s" % (shard["seed"], shard["persona"], shard["index"]))
-        cases = (gen(rnd) for _ in range(shard["count"]))
+
+        def stream():
+            # consecutive renders in one process: a share of the cases repeats the previous
+            # case's size, transparency setting and colours with new pixels, so that anything
+            # carried over from one render to the next becomes visible
+            prev = None
+            for _ in range(shard["count"]):
+                case = gen(rnd)
+                if prev is not None and rnd.random() < 0.3:
+                    for k in ("size", "alpha_mode", "thr", "hexbg", "termbg"):
+                        if k in prev:
+                            case[k] = prev[k]
+                        else:
+                            case.pop(k, None)
+                    if case["tier"] == "identity":
+                        case["mode"] = "RGBA"
+                prev = case
+                yield case
+
+        cases = stream()
     for case in cases:
         try:
             run_case(case, env, res)
